@@ -134,10 +134,19 @@ def needsFirst (x : Inst) (u : Path) : Bool := if Facts.c09NeedsLiveFirst == 1 t
 def needsSecond (x : Inst) (u : Path) : Bool := if Facts.c09NeedsLiveFirst == 1 then readCkpts x u else readLive x u
 def needsTable2 (x1 x2 : Inst) (u : Path) : Bool := needsFirst x1 u || needsSecond x2 u
 
+/-- how an answer reaches `ExclusivelyOwnsTable`: the query context has no deadline (`c09OwnsNoDeadline`), so a
+neighbour that does not answer keeps the call waiting, and an error is passed on as an error (`c09OwnsErrPassed`).
+With a deadline a silent neighbour would turn into an error at best, and a swallowed error into a "no". -/
+def arrives (a : Ans) : Ans :=
+  match a with
+  | .hang => if Facts.c09OwnsNoDeadline == 1 then .hang else (if Facts.c09OwnsErrPassed == 1 then .err else .no)
+  | .err => if Facts.c09OwnsErrPassed == 1 then .err else .no
+  | a => a
+
 /-- the answers that count: a neighbour whose range does not overlap the table is not asked
 (`neighborPartition.NeedsTable`) -/
 def effective (t : Tbl) (nbrs : List (KGRange × Ans)) : List Ans :=
-  nbrs.map fun ra => if Gen.kgOverlaps ra.1 t.span then ra.2 else Ans.no
+  nbrs.map fun ra => if Gen.kgOverlaps ra.1 t.span then arrives ra.2 else Ans.no
 
 /-- `OperatorPartition.ExclusivelyOwnsTable` followed by the cleanup's `if canDelete` -/
 def decision (own : KGRange) (t : Tbl) (nbrs : List (KGRange × Ans)) : Decision :=
@@ -164,6 +173,10 @@ inductive Act where
   | crash (i : Nat)
   | release (i : Nat)
   | collect (i : Nat) (u : Path) (answers : List Ans)
+  /-- `Operator.HandleDeploy` on an operator that already serves instance `i`, ending in a load failure (or still
+  loading): `o.db` is assigned only after `dkv.Open` returned, so the operator keeps serving — and answering
+  `NeedsTable` from — the instance it had -/
+  | redeployFailed (i : Nat)
 deriving Repr
 
 def setInst (s : State) (i : Nat) (x : Inst) : State := { s with insts := s.insts.set i x }
@@ -290,6 +303,10 @@ def step (s : State) : Act → Option State
             some { setInst s i { x with loaded := x.loaded.erase t } with
                    files := if d = .delete ∨ Facts.c09LoadedGuarded ≠ 1 then rmFile s.files (.sst u) else s.files }
       else none
+  | .redeployFailed i =>
+    match s.insts[i]? with
+    | none => none
+    | some x => if x.life = .alive then some s else none
 
 def run (s : State) : List Act → Option State
   | [] => some s
